@@ -83,7 +83,77 @@ def cases(tier, seed):
                     d.update({"fields": ["A", "C", "G", "H"], "payload": ["affine%d" % n, "const%d" % n, "coded", "hconst%d" % n], "seed": seed,
                               "layout": [scope.layouts(len(b), 'idrev')[-1 if (mi + r) % 2 else 0] for b in mesh["levels"]]})
                     out.append({"desc": d, "normal": n, "dyadic": dyadic, "w": len(mesh["levels"])})
+    for n in (0, 2):
+        out.append({"desc": deep_desc(seed, n), "normal": n, "dyadic": True, "deep": True, "w": 8})
     return out
+
+
+def deep_desc(seed, n=0):
+    """seven levels towards the far corner, twelve fields: FAB header lines longer than 100 bytes.  The dense slice
+    model would need gigabytes here; the oracle is the closed form of the field affine along the normal."""
+    d = dict(scope.deep_corner_mesh())
+    d.update({"origin": [1.0, -2.0, 0.5], "dx0": [0.25, 0.5, 0.125]})
+    L2 = scope.layouts(2, 'idrev')
+    d.update({"fields": ["A", "C", "G"] + ["p%d" % i for i in range(9)], "payload": ["affine%d" % n, "const%d" % n, "coded"] + ["signed"] * 9,
+              "seed": seed, "layout": [None, L2[-1], None, L2[1], None, L2[2], L2[-1]]})
+    return d
+
+
+def deep_positions(ref, n):
+    """positions (in finest cells from the low face) around the corner boxes and in the coarse region, away from the domain faces"""
+    nf = ref.domain[-1][n]
+    cells = [nf - 2.5, nf - 3.0, nf - 3.25, nf - 4.0, nf - 4.5, nf - 6.75, nf - 8.0, nf - 8.5, nf - 9.0, nf - 40.25, nf / 2.0 + 0.5, 40.0, 37.0]
+    return [ref.geo_lo[n] + c * ref.dx[-1][n] for c in cells]
+
+
+def run_deep(case, workdir, rec):
+    from amr_kitchen.mandoline import Mandoline
+    n = case["normal"]
+    desc = case["desc"]
+    path, ref = build(desc, workdir)
+    dh = h64([desc, n])
+    a, b = 3.0, 2.0
+    for pi, pos in enumerate(deep_positions(ref, n)):
+        for serial in (True, False):
+            with vpool.controlled():
+                with poisoned(MODS, pi % 2):
+                    st, val = call(lambda: Mandoline(path, fields=["A", "p7", "grid_level"], serial=serial, verbose=0).slice(normal=n, pos=pos, fformat="return"))
+            sub = {"normal": n, "pos": pos, "fields": ["A", "p7", "grid_level"], "serial": serial, "deep": True}
+            rec.exe([dh, "deep", pi, serial])
+            if st == "exc":
+                rec.fail("raised", sub, exc_text(val))
+                continue
+            got = np.asarray(val["A"]).T
+            e = a + b * pos
+            # per pixel: the finest level with a box that contains the point; the affine field is exact unless the plane
+            # is beyond the outermost cell centres of THAT level (then the single nearest sample is returned)
+            cx, cy = [d_ for d_ in range(3) if d_ != n]
+            F = ref.nlevels - 1
+            Lp = np.zeros((ref.domain[F][cx], ref.domain[F][cy]), dtype=int)
+            has = np.zeros((ref.nlevels,) + Lp.shape, dtype=bool)     # levels with a box at the pixel whose half-cell-extended normal extent holds the plane
+            for lv in range(ref.nlevels):
+                r = 2 ** (F - lv)
+                for lo, hi in ref.boxes[lv]:
+                    blo, bhi = ref.geo_lo[n] + lo[n] * ref.dx[lv][n], ref.geo_lo[n] + (hi[n] + 1) * ref.dx[lv][n]
+                    if blo <= pos <= bhi:
+                        Lp[lo[cx] * r:(hi[cx] + 1) * r, lo[cy] * r:(hi[cy] + 1) * r] = lv
+                    if blo - ref.dx[lv][n] / 2 <= pos <= bhi + ref.dx[lv][n] / 2:
+                        has[lv, lo[cx] * r:(hi[cx] + 1) * r, lo[cy] * r:(hi[cy] + 1) * r] = True
+            half = np.array([ref.dx[lv][n] / 2 for lv in range(ref.nlevels)])[Lp]
+            two_sided = (pos - ref.geo_lo[n] >= half) & (ref.geo_hi[n] - pos >= half)
+            if got.shape != Lp.shape:
+                rec.fail("shape", sub, "%s" % (got.shape,))
+                continue
+            bad = two_sided & ~(np.abs(got - e) <= 64 * EPS * (abs(a) + abs(b * pos)) * 4)
+            if has_poison_mask(got).any() or has_poison_mask(np.asarray(val["p7"], dtype=float)).any():
+                rec.fail("uninitialised_memory", sub, "pixels hold uninitialised memory")
+            elif bad.any():
+                i, j = np.argwhere(bad)[0]
+                rec.fail("affine_not_reproduced", sub, "A pixel (%d,%d): %r != a+b*pos = %r" % (i, j, got[i, j], e))
+            g = np.asarray(val["grid_level"], dtype=float).T
+            if not (np.isin(g, np.arange(ref.nlevels)).all() and np.take_along_axis(has, g.astype(int)[None, ...], axis=0)[0].all()):
+                rec.fail("grid_level", sub, "levels shown: %r" % sorted(set(g.ravel().tolist()))[:10])
+    rec.sample({"desc": {k: v for k, v in desc.items() if k != "levels"}, "normal": n, "deep": True})
 
 
 FIELD_LISTS = [["A"], ["A", "C", "G", "H"], ["G", "grid_level"], ["all"], ["G", "A"], ["C", "grid_level", "A"]]
@@ -250,6 +320,9 @@ def check_perturbed(rec, sub, sm, ref, m, L, out, pos2):
 def run_case(case, workdir):
     from amr_kitchen.mandoline import Mandoline
     rec = Rec()
+    if case.get("deep"):
+        run_deep(case, workdir, rec)
+        return rec.result()
     desc = case["desc"]
     n = case["normal"]
     path, ref = build(desc, workdir)
